@@ -1330,6 +1330,62 @@ var vfQsDirected = []vfQsDirectedScript{
 		r.pAck(r.unackedList())
 		r.pMaxData(int64(md + 1000))
 	}},
+	// New data first sent in a PTO probe.  Stream a fills the congestion window (nothing is
+	// acknowledged), stream b has flushed bytes that could not be sent, a is reset (so the probe
+	// holds only a small RESET_STREAM for it), the PTO fires and the probe carries b's never-sent
+	// bytes; then everything is acknowledged and stream c writes until MAX_DATA blocks: the bytes
+	// that went out in the probe count against MAX_DATA and for a later RESET_STREAM's final size.
+	{vfQsProbeSetup, vfQsProbe(0, 1, false)},
+	// b has sent-and-unacknowledged bytes too (the probe frame straddles them), two probes
+	{vfQsProbeSetup, vfQsProbe(100, 2, false)},
+	// b is reset right after the probe: RESET_STREAM must state the bytes the probe carried
+	{vfQsProbeSetup, vfQsProbe(0, 1, true)},
+	{vfQsProbeSetup, vfQsProbe(60, 2, true)},
+}
+
+// vfQsProbeSetup: three local streams, peer MAX_DATA 20000 (more than the initial congestion
+// window, less than what the script writes), no stream limit worth mentioning.
+func vfQsProbeSetup(rnd *rand.Rand) vfQsSetup {
+	side := serverSide
+	if rnd.Intn(2) == 0 {
+		side = clientSide
+	}
+	return vfQsSetup{side, 65536, 65536, 0, 20000, 1 << 20, 1 << 20, 1 << 20, []string{"lb", "lu", "lb"}}
+}
+
+func (r *vfQsRun) appReset(st *vfQsStream, code uint64) {
+	r.emit(map[string]any{"e": "a_reset", "s": st.k, "code": int64(code)})
+	st.s.Reset(code)
+	r.settle(nil)
+}
+
+// vfQsProbe: see the comment in vfQsDirected.  sentFirst bytes of b are sent (and stay
+// unacknowledged) before a fills the congestion window; probes PTO timers fire; resetB resets b
+// after the first probe.
+func vfQsProbe(sentFirst, probes int, resetB bool) func(r *vfQsRun) {
+	return func(r *vfQsRun) {
+		a, b, c := r.streams[0], r.streams[1], r.streams[2]
+		if sentFirst > 0 {
+			r.write(b, sentFirst)
+			r.appFlush(b)
+		}
+		r.write(a, 13000+r.rnd.Intn(3000)) // more than the congestion window: the tail stays unsent
+		r.appFlush(a)
+		r.write(b, 200+r.rnd.Intn(500)) // flushed, cannot be sent: the congestion window is full
+		r.appFlush(b)
+		r.appReset(a, 5)
+		for i := 0; i < probes && !r.dead; i++ {
+			r.tick() // the probe: RESET_STREAM for a, b's bytes from its first unacknowledged one on
+			if i == 0 && resetB && !r.dead {
+				r.appReset(b, 6)
+			}
+		}
+		r.pAck(r.unackedList())
+		r.write(c, 12000) // more than what is left of MAX_DATA
+		r.appFlush(c)
+		r.pAck(r.unackedList())
+		r.pAck(r.unackedList())
+	}
 }
 
 // TestVerifQuicStreamLateRead runs, in its own process, the scripted scenarios in which the
